@@ -6,7 +6,7 @@ import c10_dev
 
 PROP = 'C10'
 COQ_TARGETS = ['theories/AsapFacts.vo', 'theories/AsapCodecFacts.vo', 'theories/DeviceRxFacts.vo', 'theories/DeviceRxReply.vo',
-               'theories/DeviceRxEnd.vo', 'theories/DeviceRxPeer.vo']
+               'theories/DeviceRxEnd.vo', 'theories/DeviceRxPeer.vo', 'theories/DeviceRxHdr.vo']
 COQ_IMPORTS = ('From Bac Require Import Base.\nFrom Bac Require Import Tag.\nFrom Bac Require Import Asap.\nFrom Bac Require Import AsapCodec.\n'
                'From Bac Require SsmWorld.\nFrom Bac Require Import Ssm DeviceRx.')
 RULE = ('valid confirmed requests of every supported service (ReadProperty, WriteProperty, ReadPropertyMultiple, SubscribeCOV, '
@@ -20,7 +20,7 @@ RULE = ('valid confirmed requests of every supported service (ReadProperty, Writ
         'families (garbage of every layer incl. address-field shapes and network-layer messages interleaved with valid requests, '
         'histories of valid traffic with time passing, routed requests through alternating routers with a planted I-Am-Router, '
         'small max-APDU codes with good/bad segment acks and client aborts, segmented requests in/out of order with duplicates, '
-        'abandoned segmented requests followed by the time-outs and the same invoke ID again, same-moment batches [requests that defer follow-up work, a garbage item] in every order handed over as deferred calls and run by bacpypes.core.run_once, routed requests from originators with MAC lengths 1..8, 16, 18, 255 (valid and mutated, behind remote-station and global-broadcast DADRs), a service that never responds with duplicates / client aborts / time passing, a device with communication disabled): every injected frame is predicted from its raw octets by DeviceRx.device_rx '
+        'abandoned segmented requests followed by the time-outs and the same invoke ID again, same-moment batches [requests that defer follow-up work, a garbage item] in every order handed over as deferred calls and run by bacpypes.core.run_once, routed requests from originators with MAC lengths 1..8, 16, 18, 255 (valid and mutated, behind remote-station and global-broadcast DADRs), a service that never responds with duplicates / client aborts / time passing, a device with communication disabled, every value of the fixed-header fields that leaves the header intact [all 256 invoke IDs incl. 0 and 255 with IDs reused at once from two stations, any second octet = reserved bit / max-segments / max-APDU code, reserved and segmented-response-accepted bits, NPCI priority / expecting-reply bits] on valid and mutated requests): every injected frame is predicted from its raw octets by DeviceRx.device_rx '
         '(frames sent with destination, route, PDU type, invoke ID, reason / error class+code, segmentation; server '
         'transactions, their armed timers, orphan timers after each frame and at quiescence) and compared with the stack.')
 TRUSTED = ['model coq/theories/Asap.v + AsapCodec.v = service lookup (registry translated from apdu.py), parameter decoding by the C03 codec model, dispatch and error mapping of ApplicationServiceAccessPoint.indication and Application.indication; '
@@ -659,6 +659,95 @@ def direct(rng, tier, focus=()):
                     failures.append({'kind': 'residue-after-same-moment-batch', 'batch': [(s_, o.hex()) for s_, o in batch], 'residue': ssm_residue(w1)})
             nontriv.add(('batch', tuple(base), g))
     samples.append({'direct': 'same-moment batches through bacpypes.core.run_once', 'example': ['SubscribeCOV', 'garbage 01', 'ReadProperty']})
+
+    # every value of every field of the fixed header that leaves the header intact (wave 6): the invoke ID octet 0..255 (0 and
+    # 255 are ordinary IDs: other stacks start numbering at 0), the second octet 0..255 (reserved bit, max-segments code,
+    # max-APDU code incl. the reserved ones), the low bits of the first octet (reserved bit, segmented-response-accepted) and
+    # the NPCI priority / expecting-reply bits.  Every request of the pool, valid and with mutated parameters: exactly one
+    # reply carrying the ID of the request, the valid ones answered as under the ID every other family uses; nothing left
+    # behind; then IDs reused / mixed on one device.
+    def with_hdr(apdu, inv=None, b1=None, b0=None):
+        a = bytearray(apdu)
+        if inv is not None:
+            a[2] = inv
+        if b1 is not None:
+            a[1] = b1
+        if b0 is not None:
+            a[0] = (a[0] & 0xFC) | b0
+        return bytes(a)
+
+    def hdr_check(name, how, frame, inv, want=None):
+        nonlocal n
+        n += 1
+        w = C.Device()
+        w.inject([frame])
+        errs = w.settle(300.0)
+        got = canon_reply_frames(w.replies(), inv)
+        others = [(t, i) for t, i, a in w.replies() if t in (2, 3, 5, 6, 7) and i != inv]
+        bad = None
+        if len(got) != 1:
+            bad = 'not-exactly-one-reply-for-header-field-value'
+        elif want is not None and got != want:
+            bad = 'answer-depends-on-header-field-value'
+        elif others:
+            bad = 'reply-under-another-invoke-id'
+        if bad:
+            failures.append({'kind': bad, 'request': name, 'mutation': how, 'invoke': inv, 'frames': [frame.hex()], 'replies': got,
+                             'expected_if_valid': want, 'replies_under_other_ids': others[:4],
+                             'exceptions': [repr(e)[:120] for e in errs[:3]]})
+        res = ssm_residue(w)
+        if res:
+            failures.append({'kind': 'residue-after-header-field-value', 'request': name, 'mutation': how, 'invoke': inv,
+                             'frames': [frame.hex()], 'residue': res})
+        nontriv.add(('hdr', frame))
+    edge_ids = [0, 1, 2, 127, 128, 254, 255]
+    for name, apdu in pool:
+        muts = C.mutations(rng, apdu, 2)
+        extra = set(edge_ids + [rng.randrange(256) for _ in range(9)])
+        for inv in range(256):
+            if tier == 'thorough' or inv in extra or inv % len(pool) == pool.index((name, apdu)) % len(pool) or name == 'ReadProperty':
+                hdr_check(name, 'invoke-id', C.npdu(with_hdr(apdu, inv=inv)), inv, clean[name])
+            if inv in extra:
+                how, m = rng.choice(muts)
+                hdr_check(name, how + '+invoke-id', C.npdu(with_hdr(m, inv=inv)), inv)
+        for b1 in range(256):
+            if tier == 'thorough' or b1 % 16 >= 5 or rng.random() < 0.25:
+                inv = rng.choice(edge_ids + [INVOKE])
+                # codes 0..4 announce less than the device's 1476 octets: a long answer is aborted instead (segmentation
+                # not accepted), still one reply; the reserved codes are answered by Abort
+                hdr_check(name, 'octet1=%02x' % b1, C.npdu(with_hdr(apdu, inv=inv, b1=b1)), inv,
+                          clean[name] if b1 % 16 == 5 else None)
+        for b0 in (1, 2, 3):
+            for ctl in (0x00, 0x04, 0x01, 0x06, 0x07):
+                inv = rng.choice(edge_ids)
+                hdr_check(name, 'octet0|=%d,npci-control=%02x' % (b0, ctl), bytes([1, ctl]) + with_hdr(apdu, inv=inv, b0=b0), inv, clean[name])
+    # the same and different IDs one after the other on one device, from one and from two stations
+    for _ in range(400 if tier == 'thorough' else 80):
+        n += 1
+        w = C.Device()
+        script = []
+        for step in range(rng.randrange(2, 6)):
+            name, apdu = rng.choice(pool)
+            inv = rng.choice(edge_ids[:3] + edge_ids[-2:])
+            node = rng.choice([w.raw, w.raw, w.raw2])
+            f = C.npdu(with_hdr(apdu, inv=inv))
+            script.append((name, str(node.address), f))
+            w.raw.frames.clear(); w.raw2.frames.clear()
+            node.send(C.DEV_ADDR, f)
+            w.settle(rng.choice([0.0, 0.0, 5.0]))
+            mine = [r for r in (C.parse_npdu_apdu(data) for src, dst, data in node.frames if src == str(C.DEV_ADDR)) if r is not None]
+            got, want = canon_reply_frames(mine, inv), clean[name]
+            if [g[:2] if g[0] in (6, 7) else g[:1] for g in got] != [g[:2] if g[0] in (6, 7) else g[:1] for g in want]:
+                failures.append({'kind': 'invoke-id-history-changes-answer', 'request': name, 'invoke': inv,
+                                 'history': [(a_, b_, c_.hex()) for a_, b_, c_ in script], 'frames': [c_.hex() for a_, b_, c_ in script],
+                                 'replies': got, 'fresh_device_replies': want})
+                break
+        w.settle(300.0)
+        if ssm_residue(w):
+            failures.append({'kind': 'residue-after-invoke-id-history', 'frames': [c_.hex() for a_, b_, c_ in script], 'residue': ssm_residue(w)})
+        nontriv.add(('hdr-history', tuple(c_ for a_, b_, c_ in script)))
+    samples.append({'direct': 'fixed-header field values: invoke ID 0..255, second octet 0..255, low bits of the first, NPCI priority',
+                    'example': C.npdu(with_hdr(pool[0][1], inv=0)).hex()})
     return failures, {'evaluations': n, 'distinct_nontrivial': len(nontriv), 'samples': samples, 'device_level_notes': dict(DEV_STATS)}
 
 
